@@ -209,5 +209,6 @@ pub fn subs() -> Vec<Box<dyn DynSub>> {
         sub(Sub { name: "c07.forward", source: Source::Gen(fwd_strategy, 3_000_000, 30_000_000), oracle: fwd_oracle, known: no_known, hang_is_violation: false }),
         sub(Sub { name: "c07.reverse", source: Source::Gen(rev_strategy, 2_000_000, 20_000_000), oracle: rev_oracle, known: no_known, hang_is_violation: false }),
         sub(Sub { name: "c07.facts", source: Source::Enum(fact_enum, |_| true), oracle: fact_oracle, known: no_known, hang_is_violation: false }),
+        crate::props::fuzzsub::fc07(),
     ]
 }
